@@ -631,73 +631,6 @@ def classes_of(an, cases):
     return out
 
 
-# ----------------------------------------------------------------------------------------------
-# Proposed known findings of the CURRENT tree (also written to work/c14-proposed-known.json); the main engineer decides.
-# ----------------------------------------------------------------------------------------------
-_DENO_AST = ("deno_ast 0.46 `Scope::analyze` (dependency, src/scopes.rs) does not record this binding form, so `scope().var(id)` / `is_global(id)` "
-             "answers 'global' for a reference that swc's resolver bound to it")
-_SV_RULES = "no-window, no-window-prefix, no-console, no-new-symbol, no-obj-calls, no-deprecated-deno-api, no-regex-spaces, no-control-regex, no-sync-fn-in-async-fn"
-_UNREC = {
-    "setter-parameter": ("the parameter of an object-literal setter (`SetterProp.param` is a `Pat`, not a `Param`)", "({ set s(window) { window.p; } });"),
-    "ts-enum": ("a TypeScript enum", "enum window { A } window.p;"),
-    "ts-namespace": ("a TypeScript namespace", "namespace window { export const a = 1; } window.p;"),
-    "ts-import-equals": ("`import x = require()` / `import x = N.a`", "import window = require('m'); window.p;"),
-    "ts-parameter-property": ("a TypeScript parameter property", "class K { constructor(private window: number) { window.p; } }"),
-    "using": ("a `using` / `await using` declaration", "{ using window = f(); window.p; }"),
-    "variable-initialised-with-same-named-class-expression":
-        ("a variable initialised with a class expression of the same name (visit_var_decl declares the class expression's own identifier INSTEAD of the variable)",
-         "let window = class window {}; window.p;"),
-}
-PROPOSED_KNOWN = {}
-for _g, (_what, _ex) in _UNREC.items():
-    PROPOSED_KNOWN["C14.scope-var-rules:%s:shadowed-but-reported" % _g] = (
-        "%s report a reference that is bound by %s, e.g. `%s` (no-window): %s" % (_SV_RULES, _what, _ex, _DENO_AST))
-    PROPOSED_KNOWN["C14.prefer-primordials.ident-global:%s:shadowed-but-reported" % _g] = (
-        "prefer-primordials (ident handler, GLOBAL_TARGETS && !is_shadowed) reports a global-intrinsic name bound by %s, e.g. `%s` with parseInt for window: %s"
-        % (_what, _ex, _DENO_AST))
-PROPOSED_KNOWN.update({
-    "C14.prefer-primordials.member-global:every-binding-form:shadowed-but-reported":
-        "prefer-primordials member_expr handler compares the object identifier with GLOBAL_TARGETS without consulting the scope: "
-        "`const Array = x; Array.from(o);` and `function f(Symbol) { return Symbol.iterator; }` are reported for every binding form "
-        "(src/rules/prefer_primordials.rs:510-523).  Not repairable as a fix: the repo's own test prefer_primordials_invalid pins "
-        "`const { JSON } = primordials; JSON.parse(\"{}\")` as a report (adding the scope test makes that test fail; tried in a scratch copy)",
-    "C14.prefer-primordials.unsafe-constructor:every-binding-form:shadowed-but-reported":
-        "prefer-primordials ident handler reports `new Map()` / `new Set(o)` (UNSAFE_CONSTRUCTOR_TARGETS) although the identifier is bound locally, "
-        "for every binding form: `function f(Map) { return new Map(); }` (src/rules/prefer_primordials.rs:411-420).  Pinned by the repo's test "
-        "`const { Map } = primordials; new Map();` (expected UnsafeIntrinsic)",
-    "C14.unresolved-ctxt-rules:export-alias:non-reference-reported":
-        "no-process-global / no-node-globals report the ALIAS of `export { z as process }` (an exported name, not a reference; swc leaves it in the "
-        "unresolved context and the `ident` handler sees every Ident node): `const z = 1; export { z as process };`",
-    "C14.prefer-primordials:export-alias:non-reference-reported":
-        "prefer-primordials reports the alias of `export { z as Array }` (an exported name, not a reference)",
-    "C14.prefer-primordials:import-external-name:non-reference-reported":
-        "prefer-primordials reports the external name of `import { Array as z } from 'm'` (not a reference, binds nothing)",
-    "C14.prefer-primordials:label:non-reference-reported":
-        "prefer-primordials reports a LABEL spelled like a global intrinsic: `Array: for (;;) { break Array; }` (labels are Ident nodes)",
-    "C14.prefer-primordials:property-key:ts-interface-member:non-reference-reported":
-        "prefer-primordials reports the member name of `interface I { Array: number }` (TsPropertySignature keys are Ident expressions)",
-    "C14.prefer-primordials:property-key:ts-enum-member:non-reference-reported":
-        "prefer-primordials reports the member name of `enum E { Map }`",
-    "C14.prefer-primordials:setter-parameter:non-reference-reported":
-        "prefer-primordials reports the BINDING occurrence of an object-literal setter parameter `({ set s(Map) {} })` (its ident handler asks deno_ast's Scope, which does not record it)",
-    "C14.prefer-primordials:ts-enum:non-reference-reported":
-        "prefer-primordials reports the declared name of `enum Map { A }` (binding occurrence; deno_ast's Scope does not record enums)",
-    "C14.prefer-primordials:ts-namespace:non-reference-reported":
-        "prefer-primordials reports the declared name of `namespace Array { }` (binding occurrence; not recorded by deno_ast's Scope)",
-    "C14.prefer-primordials:ts-import-equals:non-reference-reported":
-        "prefer-primordials reports the declared name of `import Array = require('m')` (binding occurrence; not recorded by deno_ast's Scope)",
-    "C14.prefer-primordials:ts-parameter-property:non-reference-reported":
-        "prefer-primordials reports the binding occurrence of a parameter property `constructor(private Array: number)` (not recorded by deno_ast's Scope)",
-})
-
-
-def dump_proposed():
-    path = os.path.join(lib.WORK, "c14-proposed-known.json")
-    with open(path, "w") as f:
-        json.dump(PROPOSED_KNOWN, f, indent=1, sort_keys=True)
-    return path
-
-
 @register("C14")
 def c14(ctx):
     import gen_readers
@@ -746,9 +679,7 @@ def c14(ctx):
 
 
 if __name__ == "__main__":
-    if sys.argv[1:2] == ["dump"]:
-        print(dump_proposed())
-        sys.exit(0)
+    KNOWN = {e["match"]["class"] for e in lib.known_findings("C14")}
     tier = sys.argv[2] if len(sys.argv) > 2 else "quick"
     cases = generate(int(sys.argv[1]) if len(sys.argv) > 1 else 1, tier)
     print(len(cases), "cases")
@@ -760,8 +691,8 @@ if __name__ == "__main__":
     cls = classes_of(an, cases)
     for name, ks in sorted(cls.items()):
         short = min((cases[k] for k in ks), key=lambda x: len(x["src"]))
-        print("%-6d %s %s   [%s %s] %s" % (len(ks), "KNOWN " if name in PROPOSED_KNOWN else "NEW   ", name, short["rule"], short["media"], short["src"]))
-    print("not seen:", [k for k in PROPOSED_KNOWN if k not in cls])
+        print("%-6d %s %s   [%s %s] %s" % (len(ks), "KNOWN " if name in KNOWN else "NEW   ", name, short["rule"], short["media"], short["src"]))
+    print("known but not seen:", [k for k in KNOWN if k not in cls])
     print("parse problems:", len(an["parse_bad"]), an["parse_bad"][:3])
     print("model vs swc mismatches:", len(an["swc_mism"]), an["swc_mism"][:5])
     print("mechanism mismatches:", len(an["mech_mism"]), an["mech_mism"][:5])
